@@ -342,6 +342,11 @@ def decoders_functional():
                                 name, n.lineno, n.id, mutables[n.id],
                                 "written" if isinstance(par, ast.Subscript) and not isinstance(par.ctx, ast.Load) else "aliased or passed on",
                                 getattr(fn, "name", "lambda")))
+        import importlib.util
+        spec = importlib.util.spec_from_file_location("io_rules", os.path.join(os.path.dirname(os.path.dirname(os.path.abspath(__file__))), "vcheck", "io_rules.py"))
+        io_rules = importlib.util.module_from_spec(spec)
+        spec.loader.exec_module(io_rules)
+        problems += io_rules.scan(os.path.dirname(root))
         return [ob("decoders/no hidden inputs or persistent state", not problems, "none", problems or "none")]
     return guarded("decoders", run)
 
